@@ -1502,6 +1502,11 @@ def c19_scenario(rnd, k, fault_kind):
             plan[cond] = {"reply": reply}
             out = {"err": "ai-error"} if fault_kind in ("no-key", "refused") else {"reply": reply}
             asyncs.append({"v": "check-ai", "arg": cond, "out": out})
+    # one scenario in three with several conditions: the answer to one of the EARLIER conditions is held back, so the
+    # answers arrive in another order than the blocks were taken up (every verdict still belongs to its own block)
+    conds = list(plan)
+    if len(conds) >= 2 and rnd.random() < 0.34:
+        plan[rnd.choice(conds[:-1])]["delay"] = 0.4
     paths = sorted(files)
     raw = {"files": [{"path": p, "text": t} for p, t in files.items()], "walk": paths, "allow": paths, "scan": True,
            "patterns": patterns, "async": asyncs, "meta": {"gen": "ai", "k": k, "fault": fault_kind, "blocks": nblocks}}
